@@ -494,7 +494,18 @@ pub fn def(tier: Tier) -> PropertyDef {
                     1 => crate::props::proto::pitem(),
                 ], 60..200),
             ], plugin_protocols).rates(&[("yielded_messages", 0.9), ("someip_chunk_after_start", 0.2), ("transfer_data_after_start", 0.2)]).boxed(),
-            sub("binary_convert", tier.pick(320, 8_000), (0u8..3, prop::collection::vec(m(), 1..25), prop::collection::vec(crate::props::proto::pitem(), 1..30), any::<u16>()), binary_convert).rates(&[("exit_ok", 0.5), ("plugins_from_cli_paths", 0.3)]).shrink_iters(60).slow().boxed(),
+            sub("binary_convert", tier.pick(480, 12_000), (0u8..6).prop_flat_map(|k| {
+                let line = match k % 3 {
+                    0 => asc_line().boxed(),
+                    1 => logcat_line().boxed(),
+                    _ => genlog_line().boxed(),
+                };
+                let line = (line, prop::option::weighted(0.12, any::<u16>())).prop_map(|(l, u)| match u {
+                    Some(n) => format!("{}\u{1}{}", l, n),
+                    None => l,
+                });
+                (Just(k), prop::collection::vec(m(), 1..25), prop::collection::vec(crate::props::proto::pitem(), 1..30), any::<u16>(), prop::collection::vec(line, 1..20))
+            }), binary_convert).rates(&[("exit_ok", 0.3), ("plugins_from_cli_paths", 0.3), ("text_input", 0.3)]).shrink_iters(60).slow().boxed(),
             sub("tag_flood", tier.pick(32, 200), (any::<bool>(), prop_oneof![1 => Just(999u16), 3 => any::<u16>()], any::<u8>()), tag_flood).shrink_iters(4).boxed(),
             sub("messy_traces", tier.pick(20_000, 500_000), (prop::collection::vec(ev(3), 1..120), prop::bool::weighted(0.3)), messy_bytes).boxed(),
             crate::fuzzing::fuzz_sub("chain_fast", "fuzz_chain_fast", tier.pick(3_000, 30_000)),
@@ -534,11 +545,19 @@ fn plugin_protocols(v: &Vec<crate::props::proto::PItem>, rep: &mut Rep) -> Resul
 /// the adlt binary itself (argument handling, listing/printing with chrono formatting of hostile times, plugins built
 /// from command line paths, export, anonymiser) on hostile files: it ends, is not killed by a signal, does not panic.
 /// The exit status is not judged (an unusable input may be refused).
-fn binary_convert(v: &(u8, Vec<M>, Vec<crate::props::proto::PItem>, u16), rep: &mut Rep) -> Result<(), String> {
+fn binary_convert(v: &(u8, Vec<M>, Vec<crate::props::proto::PItem>, u16, Vec<String>), rep: &mut Rep) -> Result<(), String> {
     use crate::props::c14::Sandbox;
-    let (kind, ms, items, opts) = v;
+    let (kind, ms, items, opts, lines) = v;
     let mut d = vec![];
-    match kind % 3 {
+    let mut ext = "dlt";
+    match kind % 6 {
+        3 | 4 | 5 => {
+            // text formats (the tools read them twice: second pass with a reference time)
+            ext = ["asc", "txt", "log"][*kind as usize % 3];
+            let lines: Vec<String> = lines.iter().map(|l| match l.rsplit_once('\u{1}') { Some((body, n)) => unicodify(body, n.parse().unwrap_or(0)), None => l.clone() }).collect();
+            d = lines.join("\n").into_bytes();
+            rep.label("text_input");
+        }
         0 => {
             for x in ms {
                 enc(x, false, &mut d);
@@ -556,7 +575,7 @@ fn binary_convert(v: &(u8, Vec<M>, Vec<crate::props::proto::PItem>, u16), rep: &
         }
     }
     let sb = Sandbox::new("c03bin");
-    let input = sb.path("in.dlt");
+    let input = sb.path(&format!("in.{}", ext));
     std::fs::write(&input, &d).map_err(|e| e.to_string())?;
     let t = crate::chain::repo_tests();
     let mut args: Vec<String> = vec!["convert".into()];
